@@ -137,4 +137,93 @@ def toOut {β : Type} : Option β → Out β
   | some b => .ok b
   | none => .typeError
 
+/-! ## intersection and difference: the write log, all arguments with identities
+
+`interTO`/`diffTV` (`Model/C07Tok.lean`) take the arguments that are only read (`dicts[1:]`, `d2`) as plain values.
+Here every argument carries identities, and the statements that store into or delete from a dictionary
+(`del res[key]`, `res[key] = …`, `result[key] = …`) are logged with the identity of the dictionary they change; the
+recursion and the allocation counter are those of `interTO`/`diffTV`. -/
+
+section wlog
+variable [DecidableEq α]
+
+/-- the slots of a dictionary argument by value (`[]` for a non-dictionary, which raises before anything happens) -/
+def argSlots : TVal α → Slots α
+  | .dict _ l => eraseL l
+  | .leaf _ _ => []
+
+mutual
+/-- writes of the body of `for key in res:` + `del res[key]` for one key; `t` is the identity of `res` -/
+def interWO (t : Nat) (lv : Int) : Option (TVal α) → Option (Val α) → Nat → List Nat
+  | none, _, _ => []
+  | some _, none, _ => [t]                                        -- `del res[key]`
+  | some v, some w, c =>
+    if w = eraseV v then []
+    else if lv = 1 then [t]                                       -- `del res[key]`
+    else match v, w with
+      | .dict _ x, .dict y =>
+        -- the recursive call works on its own copy (the new object `c`), then `res[key] = …`
+        (if lv - 1 = 0 then [] else interWL c (lv - 1) (copyL x (c + 1)).1 y (copyL x (c + 1)).2) ++ [t]
+      | _, _ => [t]                                               -- `del res[key]`
+  termination_by _ y _ => sizeOf y
+def interWL (t : Nat) (lv : Int) : TSlots α → Slots α → Nat → List Nat
+  | [], _, _ => []
+  | x :: r, [], _ => (x :: r).filterMap (fun o => o.map (fun _ => t))   -- every key is deleted
+  | x :: r, y :: r', c => interWO t lv x y c ++ interWL t lv r r' (interTO lv x y c).2
+  termination_by _ b _ => sizeOf b
+end
+
+/-- writes of the loop `for d in dicts[1:]:` on the dictionary object `t` -/
+def interWFold (lv : Int) (t : Nat) : TSlots α → List (Slots α) → Nat → List Nat
+  | _, [], _ => []
+  | l, d :: ds, c =>
+    if lv = 0 then
+      if d = eraseL l ∧ nonEmpty d = true then interWFold lv t l ds c else []
+    else
+      interWL t lv l d c ++
+        (if nonEmpty (eraseL (interTL lv l d c).1) = true then interWFold lv t (interTL lv l d c).1 ds (interTL lv l d c).2
+         else [])
+
+/-- `intersection(*args, level=lv)` with every argument carrying identities: the result of `interT` on the first
+argument and the values of the others -/
+def interArgs (n : Nat) (lv : Int) (c : Nat) : List (TVal α) → TVal α × Nat
+  | [] => interT n lv c none []
+  | .dict t l0 :: rest => interT n lv c (some (t, l0)) (rest.map argSlots)
+  | .leaf _ _ :: _ => (emptyT c n, c)                              -- (`LenaTypeError`; not used)
+
+/-- the identities of the dictionaries that call writes to -/
+def interArgsLog (lv : Int) (c : Nat) : List (TVal α) → List Nat
+  | [] => []
+  | .dict _ l0 :: rest => interWFold lv c (copyL l0 (c + 1)).1 (rest.map argSlots) (copyL l0 (c + 1)).2
+  | .leaf _ _ :: _ => []
+
+variable (truthy : α → Bool)
+
+mutual
+/-- writes of `difference(d1, d2, level)` (`result[key] = …`) -/
+def diffWV (lv : Int) : TVal α → Val α → Nat → List Nat
+  | .dict _ x, .dict y, c =>
+    if eraseL x = y then [] else if lv = 0 then [] else diffWL c lv x y (c + 1)      -- `result` is the new object `c`
+  | _, _, _ => []
+def diffWO (t : Nat) (lv : Int) : Option (TVal α) → Option (Val α) → Nat → List Nat
+  | none, _, _ => []
+  | some _, none, _ => [t]
+  | some v, some w, c =>
+    if eraseV v = w then []
+    else if lv ≠ 1 ∧ isDict (eraseV v) = true ∧ isDict w = true then
+      diffWV (lv - 1) v w c ++ (if truthyT truthy (diffTV truthy (lv - 1) v w c).1 = true then [t] else [])
+    else [t]
+def diffWL (t : Nat) (lv : Int) : TSlots α → Slots α → Nat → List Nat
+  | [], _, _ => []
+  | x :: r, [], c => diffWO t lv x none c ++ diffWL t lv r [] (diffTO truthy lv x none c).2
+  | x :: r, y :: r', c => diffWO t lv x y c ++ diffWL t lv r r' (diffTO truthy lv x y c).2
+end
+
+/-- `difference(d1, d2, level)` with both arguments carrying identities -/
+def diffArgs (lv : Int) (d1 d2 : TVal α) (c : Nat) : TVal α × Nat := diffTV truthy lv d1 (eraseV d2) c
+
+def diffArgsLog (lv : Int) (d1 d2 : TVal α) (c : Nat) : List Nat := diffWV truthy lv d1 (eraseV d2) c
+
+end wlog
+
 end Lena.C07
